@@ -368,8 +368,23 @@ pub fn make_inputs(seed: u64, tier: Tier, ticks: bool) -> Inputs {
             sources.push(pysrc::gen_source(&mut Rng::sub(seed, &format!("src{}", i)), &scfg));
         }
     }
+    if r.chance(1, 2) {
+        // two sources that differ by one leading statement: the same nodes, one sibling
+        // position further on
+        sources[1] = format!("pass\n{}", sources[0]);
+    }
     match r.below(10) {
         0 => Inputs { kind: "unused-captures".into(), text: unused_captures_program(&mut r), sources, globs: vec![], alt_globs: vec![vec![]], variants: vec![] },
+        3 => Inputs {
+            // every syntax function of the standard library applied to every statement and
+            // identifier: what they return is a function of the node, not of its address
+            kind: "syntax-functions".into(),
+            text: "(module (_) @s)\n{\n  node n\n  attr (n) idx = (named-child-index @s), cnt = (named-child-count @s), ty = (node-type @s), sr = (start-row @s), sc = (start-column @s), er = (end-row @s), ec = (end-column @s), tx = (source-text @s)\n}\n\n(identifier) @i\n{\n  node m\n  attr (m) idx = (named-child-index @i), cnt = (named-child-count @i), ty = (node-type @i), sr = (start-row @i), sc = (start-column @i), tx = (source-text @i)\n}\n".into(),
+            sources,
+            globs: vec![],
+            alt_globs: vec![vec![]],
+            variants: vec![],
+        },
         1 | 2 => Inputs { kind: "multi-fault".into(), text: multi_fault_program(&mut r), sources, globs: vec![], alt_globs: vec![vec![]], variants: vec![] },
         k => {
             let cfg = gen::GenCfg {
@@ -470,7 +485,7 @@ fn inputs_from_json(j: &J) -> Inputs {
 fn random_env(r: &mut Rng) -> Env {
     Env {
         hash_seed: r.next() | 1,
-        policy: Policy::ALL[r.below(5)],
+        policy: Policy::ALL[r.below(6)],
         layout_seed: r.next(),
         lifo_heap: r.chance(1, 2),
         trace_log: r.chance(1, 3),
@@ -539,6 +554,9 @@ fn check_a(inp: &Inputs, lazy: bool, envs: &[Env]) -> Result<(AStats, Option<(Fo
 pub enum Step {
     Exec { tree: usize, lazy: bool, cancel_at: Option<u64>, gv: usize },
     Reparse { tree: usize },
+    /// free two trees, then parse them again in the other order: under a LIFO allocator each
+    /// takes over addresses of the other (same node ids, different content)
+    Exchange { a: usize, b: usize },
     Reload,
     /// load another file (a structural twin), execute it on the same thread, drop it
     OtherFile { variant: usize, tree: usize, lazy: bool },
@@ -551,6 +569,7 @@ fn step_json(s: &Step) -> J {
     match s {
         Step::Exec { tree, lazy, cancel_at, gv } => json!({"op": "exec", "tree": tree, "lazy": lazy, "cancel_at": cancel_at, "globals_variant": gv}),
         Step::Reparse { tree } => json!({"op": "reparse", "tree": tree}),
+        Step::Exchange { a, b } => json!({"op": "exchange", "a": a, "b": b}),
         Step::Reload => json!({"op": "reload"}),
         Step::OtherFile { variant, tree, lazy } => json!({"op": "other-file", "variant": variant, "tree": tree, "lazy": lazy}),
         Step::LoadBroken { kind } => json!({"op": "load-broken", "kind": kind}),
@@ -566,6 +585,7 @@ fn step_from_json(j: &J) -> Step {
             gv: j["globals_variant"].as_u64().unwrap_or(0) as usize,
         },
         "reparse" => Step::Reparse { tree: j["tree"].as_u64().unwrap_or(0) as usize },
+        "exchange" => Step::Exchange { a: j["a"].as_u64().unwrap_or(0) as usize, b: j["b"].as_u64().unwrap_or(0) as usize },
         "load-broken" => Step::LoadBroken { kind: j["kind"].as_u64().unwrap_or(0) as usize },
         "other-file" => Step::OtherFile {
             variant: j["variant"].as_u64().unwrap_or(0) as usize,
@@ -581,6 +601,7 @@ fn gen_steps(r: &mut Rng, ntrees: usize, nvariants: usize, nglobs: usize, max: u
     (0..n)
         .map(|_| match r.below(14) {
             0 | 1 => Step::Reparse { tree: r.below(ntrees) },
+            3 => Step::Exchange { a: r.below(ntrees), b: r.below(ntrees) },
             2 => Step::Reload,
             12 | 13 => Step::LoadBroken { kind: r.below(3) },
             10 | 11 if nvariants > 0 => Step::OtherFile { variant: r.below(nvariants), tree: r.below(ntrees), lazy: r.chance(1, 2) },
@@ -687,6 +708,24 @@ fn check_b(inp: &Inputs, steps: &[Step], env: &Env) -> Result<(BStats, Option<Fo
                     }
                     root_ids[*tree] = id;
                     trees[*tree] = Some(t);
+                }
+                Step::Exchange { a, b } => {
+                    for t in [*a, *b] {
+                        if let Some(old) = trees[t].as_ref() {
+                            seen_ids.extend(alloc::all_node_ids(old));
+                        }
+                        trees[t] = None;
+                    }
+                    for t in [*b, *a] {
+                        if trees[t].is_none() {
+                            let nt = simrun::parse_python(&inp.sources[t]);
+                            if alloc::all_node_ids(&nt).iter().any(|i| seen_ids.contains(i)) {
+                                st.recycled += 1;
+                            }
+                            root_ids[t] = nt.root_node().id();
+                            trees[t] = Some(nt);
+                        }
+                    }
                 }
                 Step::Reload => {
                     match simrun::load(&inp.text) {
@@ -1362,10 +1401,26 @@ pub fn run_shard(ctx: &ShardCtx, rep: &mut Report) {
                 }
             }
             "b" => {
-                let steps = gen_steps(&mut r, inp.sources.len(), inp.variants.len(), inp.alt_globs.len(), if ctx.tier == Tier::Quick { 8 } else { 12 });
+                let mut steps = gen_steps(&mut r, inp.sources.len(), inp.variants.len(), inp.alt_globs.len(), if ctx.tier == Tier::Quick { 8 } else { 12 });
                 let mut env = random_env(&mut r);
                 if r.chance(1, 2) {
-                    env.policy = Policy::Reuse;
+                    env.policy = if r.chance(1, 2) { Policy::Reuse } else { Policy::Coalesce };
+                }
+                if inp.kind == "syntax-functions" {
+                    // what the syntax functions return must not depend on what stood at a node's
+                    // address before: execute, let two trees take over each other's memory,
+                    // execute again
+                    let lazy = r.chance(1, 2);
+                    let mut head = vec![
+                        Step::Exec { tree: 0, lazy, cancel_at: None, gv: 0 },
+                        Step::Exec { tree: 1, lazy, cancel_at: None, gv: 0 },
+                        Step::Exchange { a: 0, b: 1 },
+                        Step::Exec { tree: 1, lazy, cancel_at: None, gv: 0 },
+                        Step::Exec { tree: 0, lazy, cancel_at: None, gv: 0 },
+                    ];
+                    head.extend(steps);
+                    steps = head;
+                    env.policy = if r.chance(2, 3) { Policy::Coalesce } else { Policy::Reuse };
                 }
                 match check_b(&inp, &steps, &env) {
                     Err(m) => rep.harness_error(format!("C12b run {}: {}", i, m)),
